@@ -933,9 +933,7 @@ def r10_7(prog, chk, tier, units_done):
                 except OSError:
                     pass
         cprog = Program().load_dir(extract(extra, "C10copy-" + tier))
-        for u in prog.units:
-            pass
-        cprog.load_dir(os.path.join(facts.WORK, "facts", "C10-" + tier))
+        cprog.load_dir(os.path.join(facts.WORK, "facts", "C10-" + tier + os.environ.get("GSA_WORKTAG", "")))
         chk.units += [u for u in cprog.units if u not in chk.units]
     dh, excluded = facts.extract_headers("C10h-" + tier)
     cprog.load_dir(dh)
